@@ -35,6 +35,14 @@ META = {
         "text": "DB-level clauses proved over the model: a kill entry is recorded only for a listed replica that is not a member of the view and whose reported version is older than the view's (kill_test_spec, kill_entry_justified), and after a report from address a the kill list is exactly the other addresses' entries plus a's currently reported stray replicas (kill_list_after_report) - so entries stop with the first report that no longer lists the replica. Found and fixed F-C11. Closed-loop clauses (member_never_killed, quiescence) are served by the loop model once loopsim is registered.",
         "note": DBTB, "technique": TECH,
     },
+    "C20": {
+        "text": "Complete for the model of kv/kv.go over List UInt8: the decoder never reads out of bounds on ANY byte list and prior object (decode_never_reads_out_of_bounds: the checked decoder flags every read at an index >= length and is proved never to flag), the varint loop inverts the encoder for every value (varint_roundtrip, strong induction, any accumulator/offset), decode(encode(pair)) returns the pair and the encoded length into any prior object for every pair whose encoding is shorter than ColferSizeMax (roundtrip_into_any_object, roundtrip_fresh), MarshalLen = produced length (declared_length_is_produced_length), a valid encoding followed by any non-empty suffix is reported as ColferTail(length) (tail_reported). ColferSizeMax is regenerated from the package. kvcodec compares every result of the real Marshal/Unmarshal with the model incl. exhaustive short byte strings; F-C20 (encoding of exactly ColferSizeMax bytes) is a recorded known finding in generated code.",
+        "note": "Trusted: Lean kernel; kvcodec correspondence (canonical digests of every output); Go string/slice semantics. uint shifts are modelled with explicit mod 2^64 and Go's shift>=64 rule.", "technique": TECH,
+    },
+    "C06": {
+        "text": "Theorems over the Lean model of checkSingle (memoised depth-first search with lift/unlift and the (linearized set, state) cache) for any model, any state type with decidable equality, every complete well-formed history of any length: the search answers true iff some total order of the operations respects real-time order and is accepted step by step (check_exact, via the inductive 'pick a minimal call' characterisation search_iff_inductive_characterisation: soundness by mutual induction, completeness by the cache invariant); the verdict is invariant under every injective renumbering (linearizable_rename_iff, wf_rename, verdict_renaming_invariant); the register semantics incl. unknown outcomes is the bundled Step function, transcribed (register_read/write/cas). porc compares verdict AND the complete sequence of Step calls of the real CheckEvents with the model, and the Go-side oracle compares with a brute-force search.",
+        "note": "Trusted: Lean kernel; porc correspondence (the recursive model makes the same Step calls in the same order as the iterative Go loop - compared call by call); partial: goroutine scheduling and the timeout path are exercised by repeated runs only (one worker goroutine with the default partitioner); renumber() itself is covered by the renaming theorem plus the harness's renumbered re-run, not by a proof that its table is injective.", "technique": TECH,
+    },
     "C08": {
         "text": "Theorems over the scheduler model for every context, region specification, host order and random stream: the launch planner never crashes (launch_never_crashes: the only non-result is running out of scripted draws), an accepted launch is one valid plan per definition in order (launch_complete, launch_count), every planned shard has exactly one request per member pairing member i with target i, on pairwise distinct hosts that pass the live and not-hosting filters (launch_shard_valid), and per region exactly the quota (launch_quota). scheddiff runs the real launch() on contexts answered by the real DB over the full matrix of region specifications with the Go map orders and draws handed to the model; the Go-side oracle re-states the plan validity on the real requests. Found and fixed F-C08.",
         "note": DBTB + " The model of the planner is the repaired one; the planner of the pinned commit with its crashes is kept as Drummer.launch (Model/Sched2.lean).", "technique": TECH,
